@@ -228,7 +228,17 @@ def run(tier, seed):
             ew.mk(src, sspec); os.makedirs(src, exist_ok=True); os.makedirs(dst)
             flags = [["--use-cache=true"], ["--checksum", "--checksum-db=true"], ["--use-cache=true", "--checksum", "--checksum-db=true"]][i % 3]
             r1 = world.run_sy([src, dst, "-q"] + flags, sc)
-            rr = world.run_sy([src, dst, "--verify-only", "--json"], sc)
+            # (858b5e0) the state-clearing flags next to --verify-only: a verification modifies neither tree, sy's own files included
+            with open(dst + "/.sy-state.json", "w") as fh:
+                fh.write('{"left": "by an interrupted run"}')
+            if not os.path.exists(dst + "/.sy-dir-cache.json"):
+                with open(dst + "/.sy-dir-cache.json", "w") as fh:
+                    fh.write('{"version":2,"directories":{},"files":{}}')
+            snap_b = (world.snapshot(src), world.snapshot(dst))
+            rr = world.run_sy([src, dst, "--verify-only", "--json"] + [[], ["--clean-state", "--clear-cache"], ["--clean-state"]][i % 3], sc)
+            ch_ = world.diff_snap(snap_b[0], world.snapshot(src)) + world.diff_snap(snap_b[1], world.snapshot(dst))
+            if ch_:
+                viol.append({"world": "after-complete-sync-%d" % i, "why": "--verify-only (with %s) modified a tree: %r" % (" ".join([[], ["--clean-state", "--clear-cache"], ["--clean-state"]][i % 3]) or "no further flag", ch_[:4])})
             nsingle += 1
             if r1["rc"] == 0 and rr["rc"] != 0:
                 viol.append({"world": "after-complete-sync-%d" % i, "flags": flags, "why": "a complete sync (exit 0) with %s, then --verify-only exits %s" % (" ".join(flags), rr["rc"]), "stdout": rr["out"][-400:]})
